@@ -296,6 +296,39 @@ theorem structUnpack_enc (f : Fmt) (vs : List Nat) (h : Fits f.codes vs) :
     structUnpack f (encCodes f.big f.codes vs) = .ok vs :=
   structUnpack_structPack f vs _ (structPack_eq f vs h)
 
+/-- the only way `struct.unpack_from` / `struct.unpack` fail is `struct.error` -/
+theorem structUnpackFrom_error (f : Fmt) (buf : Bytes) (off : Nat) (e : Err)
+    (h : structUnpackFrom f buf off = .error e) : e = .struct := by
+  unfold structUnpackFrom at h; split at h <;> simp_all
+
+theorem structUnpack_error (f : Fmt) (buf : Bytes) (e : Err)
+    (h : structUnpack f buf = .error e) : e = .struct := by
+  unfold structUnpack at h; split at h <;> simp_all
+
+theorem structUnpack_ok_length (f : Fmt) (buf : Bytes) (vs : List Nat)
+    (h : structUnpack f buf = .ok vs) : buf.length = f.size := by
+  unfold structUnpack at h; split at h <;> simp_all
+
+theorem structUnpackFrom_ok_length (f : Fmt) (buf : Bytes) (off : Nat) (vs : List Nat)
+    (h : structUnpackFrom f buf off = .ok vs) : off + f.size ≤ buf.length := by
+  unfold structUnpackFrom at h; split at h <;> simp_all
+
+theorem structPack_error (f : Fmt) (vs : List Nat) (e : Err) (h : structPack f vs = .error e) : e = .struct := by
+  unfold structPack at h
+  generalize f.codes = cs at h
+  induction cs generalizing vs with
+  | nil => cases vs <;> simp_all [packCodes]
+  | cons c cs ih =>
+    cases vs with
+    | nil => simp_all [packCodes]
+    | cons v vs =>
+      simp only [packCodes] at h
+      split at h
+      · cases h2 : packCodes f.big cs vs with
+        | ok r => simp [h2] at h
+        | error e' => simp only [h2, Except.error.injEq] at h; subst h; exact ih vs h2
+      · simp_all
+
 theorem structPack_ok_iff (f : Fmt) (vs : List Nat) :
     (∃ b, structPack f vs = .ok b) ↔ Fits f.codes vs := packCodes_ok_iff _ _ _
 
